@@ -434,6 +434,13 @@ func (c *rc) Patch(ctx context.Context, name string, pt types.PatchType, data []
 		}
 		o := req.Pre.DeepCopy()
 		overlay(o.Object, req.Body.Object)
+		// metadata.ownerReferences is an associative list keyed by uid: entries
+		// of other managers stay
+		mergeOwnerRefs(o, req.Pre, req.Body)
+		if controllerRefCount(o) > 1 {
+			req.Err = apierrors.NewInvalid(schema.GroupKind{Group: c.gvr.Group, Kind: o.GetKind()}, name, nil)
+			return nil, req.Err
+		}
 		o.SetUID(req.Pre.GetUID())
 		o.SetGeneration(req.Pre.GetGeneration())
 		if !jsonEqual(o.Object["spec"], req.Pre.Object["spec"]) {
@@ -454,6 +461,33 @@ func (c *rc) Apply(ctx context.Context, name string, obj *unstructured.Unstructu
 }
 func (c *rc) ApplyStatus(ctx context.Context, name string, obj *unstructured.Unstructured, options metav1.ApplyOptions) (*unstructured.Unstructured, error) {
 	panic("env: ApplyStatus not modelled")
+}
+
+func mergeOwnerRefs(dst, pre, body *unstructured.Unstructured) {
+	preRefs, _, _ := unstructured.NestedSlice(pre.Object, "metadata", "ownerReferences")
+	bodyRefs, has, _ := unstructured.NestedSlice(body.Object, "metadata", "ownerReferences")
+	if !has {
+		if len(preRefs) > 0 {
+			unstructured.SetNestedSlice(dst.Object, preRefs, "metadata", "ownerReferences")
+		}
+		return
+	}
+	out := []interface{}{}
+	for _, p := range preRefs {
+		pm, _ := p.(map[string]interface{})
+		replaced := false
+		for _, b := range bodyRefs {
+			bm, _ := b.(map[string]interface{})
+			if pm != nil && bm != nil && pm["uid"] == bm["uid"] {
+				replaced = true
+			}
+		}
+		if !replaced {
+			out = append(out, p)
+		}
+	}
+	out = append(out, bodyRefs...)
+	unstructured.SetNestedSlice(dst.Object, out, "metadata", "ownerReferences")
 }
 
 // overlay writes src over dst recursively (maps merged, everything else replaced).
